@@ -384,15 +384,21 @@ func GenFamilyExpr(r *Rng, fam string) *Expr {
 	key := func() *Expr {
 		return ref(pick(r, []*Expr{field("id"), field("name"), field("grp"), cur, fn("length", cur), mk(KSub, field("pt"), field("x"))}))
 	}
+	// substrings that do occur in the documents' strings, so that a mixed-up
+	// argument or cache entry changes the result
+	part := func() *Expr {
+		return &Expr{K: KStr, S: pick(r, []string{"a", "e", "l", "t", "al", "ta", "b", " ", "1", "é", "mm", "h"})}
+	}
+	repl := func() *Expr { return &Expr{K: KStr, S: pick(r, []string{"A", "_", "", "xx", "é", "-", "0"})} }
 	var e *Expr
 	switch fam {
 	case "replace":
-		e = fn("replace", str(), strLit(r), strLit(r))
+		e = fn("replace", str(), part(), repl())
 		if r.P(1, 3) {
 			e.C = append(e.C, intLit(r))
 		}
 	case "split":
-		e = fn("split", str(), strLit(r))
+		e = fn("split", str(), part())
 		if r.P(1, 3) {
 			e.C = append(e.C, intLit(r))
 		}
@@ -420,14 +426,14 @@ func GenFamilyExpr(r *Rng, fam string) *Expr {
 	case "sort_by":
 		e = fn("sort_by", arr(), key())
 	case "find":
-		e = fn(pick(r, []string{"find_first", "find_last"}), str(), strLit(r))
+		e = fn(pick(r, []string{"find_first", "find_last"}), str(), part())
 		if r.P(1, 2) {
 			e.C = append(e.C, intLit(r))
 		}
 	case "trim":
 		e = fn(pick(r, []string{"trim", "trim_left", "trim_right"}), str())
 		if r.P(2, 3) {
-			e.C = append(e.C, strLit(r))
+			e.C = append(e.C, part())
 		}
 	case "to_string":
 		e = fn("to_string", pick(r, []*Expr{obj(), arr(), str(), &Expr{K: KRoot}}))
